@@ -105,47 +105,59 @@ Print Assumptions wrap_eq_build_partial.
 
 (** * 4. chunked output *)
 
-(* full statement: flushing delivers exactly the written units, in order *)
-Definition chunks_concat_statement (bs : N) (ws : list owrite) : Prop :=
-  delivered (chunks bs (ws ++ [OFlush])) = written ws.
+(* XalanOutputStream exists in two variants k (FormsDefs.ostep_k): the original one (k = false) and the one
+   repaired for K05e / C08 K-C08-2 (k = true: a flush done because more data is coming keeps a trailing high
+   surrogate in the buffer).  GenForms.stream_keeps_high_surrogate, regenerated from /repo, says which one the
+   tree has (chunks = chunks_k stream_keeps_high_surrogate is what the correspondence run compares with the
+   library); the theorems are proved for BOTH. *)
 
-(* refuted: write(const char*, n) goes straight to the callback and does not flush the buffered
-   wide data first (the header only documents the obligation; the assert is compiled out) *)
-Theorem chunks_concat_refuted : ~ (forall bs ws, chunks_concat_statement bs ws).
-Proof. intro H. specialize (H ostream_bufsize [OWide [97%N]; ONarrow [98%N]]). vm_compute in H. discriminate. Qed.
+(* full statement: flushing delivers exactly the written units, in order *)
+Definition chunks_concat_statement (k : bool) (bs : N) (ws : list owrite) : Prop :=
+  delivered (chunks_k k bs (ws ++ [OFlush])) = written ws.
+
+(* refuted, in both variants: write(const char*, n) goes straight to the callback and does not flush the
+   buffered wide data first (the header only documents the obligation; only an assert guards it) *)
+Theorem chunks_concat_refuted : forall k, ~ (forall bs ws, chunks_concat_statement k bs ws).
+Proof. intros k H. specialize (H ostream_bufsize [OWide [97%N]; ONarrow [98%N]]). destruct k; vm_compute in H; discriminate. Qed.
 Print Assumptions chunks_concat_refuted.
 
 (* partial: exact decidable guard narrow_ok = every narrow write finds the buffer empty.  For every
    buffer size (0 included) and every write sequence: nothing dropped, reordered or duplicated, the
-   last partial buffer is delivered at flush *)
-Theorem chunks_concat_partial : forall bs ws, narrow_ok bs ws = true -> chunks_concat_statement bs ws.
-Proof. exact chunks_units. Qed.
+   last partial buffer (and a high surrogate that was kept back) is delivered at flush *)
+Theorem chunks_concat_partial : forall k bs ws, narrow_ok_k k bs ws = true -> chunks_concat_statement k bs ws.
+Proof. exact chunks_units_k. Qed.
 Print Assumptions chunks_concat_partial.
 
+(* the instance for the tree as it is *)
+Theorem chunks_concat_current : forall bs ws, narrow_ok bs ws = true -> delivered (chunks bs (ws ++ [OFlush])) = written ws.
+Proof. exact (chunks_units_k stream_keeps_high_surrogate). Qed.
+Print Assumptions chunks_concat_current.
+
 (* before the final flush nothing is lost either: the rest is exactly the buffer content *)
-Theorem chunks_pending : forall bs ws, narrow_ok bs ws = true ->
-  delivered (chunks bs ws) ++ o_buf (orun bs ws) = written ws.
-Proof. exact chunks_units_pending. Qed.
+Theorem chunks_pending : forall k bs ws, narrow_ok_k k bs ws = true ->
+  delivered (chunks_k k bs ws) ++ o_buf (orun_k k bs ws) = written ws.
+Proof. exact chunks_units_pending_k. Qed.
 Print Assumptions chunks_pending.
 
 (* byte level, for any block-wise transcoder (tc (a ++ b) = tc a ++ tc b) *)
 Theorem chunks_concat_transcoded : forall (tc : list N -> list N), (forall a b, tc (a ++ b) = tc a ++ tc b) ->
-  forall bs ws, narrow_ok bs ws = true ->
-  flat_map (bytes_c tc) (chunks bs (ws ++ [OFlush])) = flat_map (bytes_w tc) ws.
-Proof. exact chunks_bytes. Qed.
+  forall k bs ws, narrow_ok_k k bs ws = true ->
+  flat_map (bytes_c tc) (chunks_k k bs (ws ++ [OFlush])) = flat_map (bytes_w tc) ws.
+Proof. exact chunks_bytes_k. Qed.
 Print Assumptions chunks_concat_transcoded.
 
 (* the UTF-16 pass-through of doWrite is such a transcoder *)
-Theorem chunks_concat_utf16 : forall bs ws, narrow_ok bs ws = true ->
-  flat_map (bytes_c utf16le) (chunks bs (ws ++ [OFlush])) = flat_map (bytes_w utf16le) ws.
-Proof. intros. apply chunks_bytes; [apply utf16le_app | assumption]. Qed.
+Theorem chunks_concat_utf16 : forall k bs ws, narrow_ok_k k bs ws = true ->
+  flat_map (bytes_c utf16le) (chunks_k k bs (ws ++ [OFlush])) = flat_map (bytes_w utf16le) ws.
+Proof. intros. apply chunks_bytes_k; [apply utf16le_app | assumption]. Qed.
 Print Assumptions chunks_concat_utf16.
 
-(* every callback chunk is at most one buffer, or exactly one oversized write; the buffer never
-   exceeds its size *)
-Theorem chunks_are_bounded : forall bs ws,
-  Forall (chunk_ok (eff_size bs) ws) (chunks bs ws) /\ (len (o_buf (orun bs ws)) <= eff_size bs)%N.
-Proof. exact chunks_bounded. Qed.
+(* sizes: the buffer never exceeds its size (+ 1 in the repaired variant: the high surrogate kept back); every
+   callback chunk is at most that long, or it is exactly one oversized write (original variant) / a piece
+   of one oversized write (repaired variant) *)
+Theorem chunks_are_bounded : forall k bs ws,
+  Forall (chunk_ok k (eff_size bs) ws) (chunks_k k bs ws) /\ (len (o_buf (orun_k k bs ws)) <= eff_size bs + slack k)%N.
+Proof. exact chunks_bounded_k. Qed.
 Print Assumptions chunks_are_bounded.
 
 (** * the hypotheses are satisfiable / the statements are not vacuous *)
@@ -190,6 +202,24 @@ Proof. vm_compute. reflexivity. Qed.
 
 (* a document type with two entities takes three indexes and is not linked *)
 Example doctype_indexes : wflat (wrap [XDoctype s_a 2; XElem s_a [] [XCData s_x; XEntRef s_b [XText s_y]]]) = [5; 6; 7; 8]%N.
+Proof. vm_compute. reflexivity. Qed.
+
+(* the difference between the variants: a pair written unit by unit over a full buffer of 4 (K05e) ... *)
+Definition u_hi : N := 55357%N.     (* U+1F600 = D83D DE00 *)
+Definition u_lo : N := 56832%N.
+Definition pair_at_boundary : list owrite := [OChar 97; OChar 98; OChar 99; OChar u_hi; OChar u_lo; OChar 100; OFlush]%N.
+Example surrogate_split_original :
+  chunks_k false 4 pair_at_boundary = [CWide [97; 98; 99; u_hi]; CWide [u_lo; 100]]%N.
+Proof. vm_compute. reflexivity. Qed.
+Example surrogate_kept_back_repaired :
+  chunks_k true 4 pair_at_boundary = [CWide [97; 98; 99]; CWide [u_hi; u_lo; 100]]%N.
+Proof. vm_compute. reflexivity. Qed.
+(* ... with a buffer of ONE unit, and on the block path (the block's last unit waits, and goes out with the next block's first) *)
+Example surrogate_buffer_of_one :
+  chunks_k true 1 [OChar u_hi; OChar u_lo; OChar 100; OFlush]%N = [CWide [u_hi; u_lo]; CWide [100]]%N.
+Proof. vm_compute. reflexivity. Qed.
+Example surrogate_block_path :
+  chunks_k true 2 [OWide [97; 98; u_hi]; OWide [u_lo; 99; 100]; OFlush]%N = [CWide [97; 98]; CWide [u_hi; u_lo]; CWide [99; 100]]%N.
 Proof. vm_compute. reflexivity. Qed.
 
 Definition writes1 : list owrite := [OWide [1; 2; 3]; OChar 4; OWide [5; 6; 7; 8; 9]; OFlush; ONarrow [10; 11]; OWide [12]]%N.
